@@ -72,9 +72,17 @@ def run(ctx):
                     recs = []
                     for _r in range(n):
                         recs.append({x: (rng.choice(SIZES) if x == "size" else rng.choice(TOK)) for x in order})
+                    if len(order) == 3 and not single and rng.random() < 0.15:
+                        # whitespace-free tokens that together look like an OpenPGP armor line
+                        recs[rng.randrange(len(recs))] = dict(zip(order, rng.choice([("-----BEGIN", "PGP", "X-----"),
+                                                                                    ("-----END", "PGP", "SIGNATURE-----")])))
                     display = "-".join(p.capitalize() for p in k.split("-"))
                     obj[display] = recs[0] if single else recs
                     model[k] = (display, order, recs, single)
+                if behaviour:
+                    # another Release object configured the other way must not influence this one
+                    other = cls()
+                    other.size_field_behavior = "dak" if behaviour == "apt-ftparchive" else "apt-ftparchive"
                 # second round on the same object: one record of a multi-record field swapped for one with a longer size
                 # (same record count), the field re-assigned - what the first dump measured must not be reused
                 for round_ in (0, 1):
